@@ -20,9 +20,19 @@ import (
 // ---- messages ------------------------------------------------------------------------------
 
 // pbLegacy is a legacy message: it brings its own Marshal/Unmarshal (like pbcmpl's header type).
-type pbLegacy struct{ Payload []byte }
+type pbLegacy struct {
+	Payload []byte
+	// keep: Marshal returns the message's own slice instead of a copy, as many hand-written legacy types do
+	// ("return m.buf, nil"). The slice stays the message's: whoever receives it must not write to it or keep it.
+	keep bool
+}
 
-func (m *pbLegacy) Marshal() ([]byte, error) { return append([]byte(nil), m.Payload...), nil }
+func (m *pbLegacy) Marshal() ([]byte, error) {
+	if m.keep {
+		return m.Payload, nil
+	}
+	return append([]byte(nil), m.Payload...), nil
+}
 func (m *pbLegacy) Unmarshal(b []byte) error { m.Payload = append([]byte(nil), b...); return nil }
 func (m *pbLegacy) Reset()                   { m.Payload = nil }
 func (m *pbLegacy) String() string           { return fmt.Sprintf("legacy(%d)", len(m.Payload)) }
@@ -71,10 +81,16 @@ func (c pbCase) expVer() string {
 
 func (c pbCase) msg() proto.Message {
 	switch c.Kind {
-	case pbKLegacy:
-		return &pbLegacy{Payload: c.Payload}
-	case pbKLegacyVer:
-		return &pbLegacyVer{pbLegacy{Payload: c.Payload}, c.Ver}
+	case pbKLegacy, pbKLegacyVer:
+		// the message owns a private copy of the payload with some spare capacity; for odd lengths its Marshal hands
+		// out that very slice
+		own := make([]byte, len(c.Payload), len(c.Payload)+48)
+		copy(own, c.Payload)
+		l := pbLegacy{Payload: own, keep: len(own)&1 == 1}
+		if c.Kind == pbKLegacy {
+			return &l
+		}
+		return &pbLegacyVer{l, c.Ver}
 	case pbKBytes:
 		return &wrappers.BytesValue{Value: c.Payload}
 	case pbKString:
